@@ -127,7 +127,7 @@ CHECKS = {
         "level": "exploration",
         "lanes": [("breaker", lane("c10", {"histories": 20, "steps": 150, "every": 10}, {"histories": 1000000, "steps": 400, "every": 8}))],
         "rule": "at sampled reachable states: clone A is halted (by the admin or a monitor), clone B keeps running; each of the six value-moving messages is issued with arguments for which B succeeds and must fail on A without any effect; halting and resuming are compared query-by-query and by raw storage diff; distinct = (message, who tripped, rate regime)",
-        "require": ["c10:fresh_instance", "c10:halt_by_admin", "c10:halt_by_monitor", "c10:resume_checked", "c10:running_clone_succeeds:liquid_stake", "c10:running_clone_succeeds:liquid_unstake", "c10:running_clone_succeeds:submit_batch", "c10:running_clone_succeeds:receive_rewards", "c10:running_clone_succeeds:receive_unstaked_tokens"],
+        "require": ["c10:halt_with_pending_owner", "c10:fresh_instance", "c10:halt_by_admin", "c10:halt_by_monitor", "c10:resume_checked", "c10:running_clone_succeeds:liquid_stake", "c10:running_clone_succeeds:liquid_unstake", "c10:running_clone_succeeds:submit_batch", "c10:running_clone_succeeds:receive_rewards", "c10:running_clone_succeeds:receive_unstaked_tokens"],
         "assumptions": [SIM],
     },
     "C12": {
